@@ -80,7 +80,108 @@ def handleGetBounds (j : Json) : Except String Json := do
     let r := getBounds s.p (lo, hi)
     pure (Json.mkObj [("lo", ratJson r.1), ("hi", ratJson r.2)])
 
+/-! ## histories on one model object: queries interleaved with in-place edits
+
+The extrema functions are functions of the terms the object holds *at the time of the call*; the history only
+moves the terms (the `DictArithmetic` operators of `Qv.Model.Arith`, through the receiving type's `squash_key`).
+Whatever the object remembers between two calls must not show in the answers. -/
+
+/-- one step of a history on a model object `M` -/
+inductive HStep
+  | setE (k : Key) (v : Rat)        -- `M[k] = v`
+  | addE (k : Key) (v : Rat)        -- `M[k] += v`   (`M[k] -= v` is sent as `addE k (-v)`)
+  | iaddC (c : Rat)                 -- `M += c`
+  | isubC (c : Rat)                 -- `M -= c`
+  | iaddD (q : Poly)                -- `M += {…}`
+  | isubD (q : Poly)                -- `M -= {…}`
+  | imulC (c : Rat)                 -- `M *= c`
+  | idivC (c : Rat)                 -- `M /= c`
+  | update (q : Poly)               -- `M.update({…})`  (`for k, v in …: self[k] = v`)
+  | delIdx (i : Nat)                -- `del M[list(M)[i % len(M)]]` / `M.pop(…)`  (plain `dict` methods; no-op when empty)
+  | rebuild                         -- `M.refresh()` / `M = M.copy()`: the terms are re-inserted by the constructor
+  | clear                           -- `M.clear()`
+  | query (spin : Bool)             -- `approximate_{pubo,qubo}_extrema(M)` / `approximate_{puso,quso}_extrema(M)`
+  | bounds (lo hi : Option Rat)     -- `_get_bounds(M, (lo, hi))`
+  | temp (ps pe : Rat) (spin : Bool) -- `anneal_temperature_range(M, ps, pe, spin)`
+
+def hstepOfJson (j : Json) : Except String HStep := do
+  let t ← j.getArrVal? 0 >>= Json.getStr?
+  match t with
+  | "set" => do pure (.setE (← j.getArrVal? 1 >>= natList) (← j.getArrVal? 2 >>= ratOfJson))
+  | "add" => do pure (.addE (← j.getArrVal? 1 >>= natList) (← j.getArrVal? 2 >>= ratOfJson))
+  | "iaddc" => do pure (.iaddC (← j.getArrVal? 1 >>= ratOfJson))
+  | "isubc" => do pure (.isubC (← j.getArrVal? 1 >>= ratOfJson))
+  | "iaddd" => do pure (.iaddD (← j.getArrVal? 1 >>= polyOfJson))
+  | "isubd" => do pure (.isubD (← j.getArrVal? 1 >>= polyOfJson))
+  | "imulc" => do pure (.imulC (← j.getArrVal? 1 >>= ratOfJson))
+  | "idivc" => do pure (.idivC (← j.getArrVal? 1 >>= ratOfJson))
+  | "update" => do pure (.update (← j.getArrVal? 1 >>= polyOfJson))
+  | "del" | "pop" => do pure (.delIdx (← j.getArrVal? 1 >>= Json.getNat?))
+  | "refresh" | "copy" => pure .rebuild
+  | "clear" => pure .clear
+  | "q" => do
+    let f ← j.getArrVal? 1 >>= Json.getStr?
+    match f with
+    | "pubo" | "qubo" => pure (.query false)
+    | "puso" | "quso" => pure (.query true)
+    | _ => throw s!"bad extrema fn {f}"
+  | "qb" => do pure (.bounds (← j.getArrVal? 1 >>= optRat) (← j.getArrVal? 2 >>= optRat))
+  | "qt" => do
+    pure (.temp (← j.getArrVal? 1 >>= ratOfJson) (← j.getArrVal? 2 >>= ratOfJson) (← j.getArrVal? 3 >>= Json.getBool?))
+  | _ => throw s!"bad history step {t}"
+
+/-- `for k, v in d.items(): self[k] = v` -/
+def updateD (sq : Sq) (p : Poly) : Poly → Except Err Poly
+  | [] => .ok p
+  | (k, v) :: r => do
+    let p' ← setItem sq p k v
+    updateD sq p' r
+
+def pairJson (r : Rat × Rat) : Json := Json.mkObj [("lo", ratJson r.1), ("hi", ratJson r.2)]
+
+/-- the terms after a step, and what the step returned to the caller (queries only) -/
+def hstep (κ : Kind) (sq : Sq) (p : Poly) : HStep → Except Err (Poly × Option Json)
+  | .setE k v => do pure (← setItem sq p k v, none)
+  | .addE k v => do pure (← addTerm sq p k v, none)
+  | .iaddC c => do pure (← Qv.iaddC sq p c, none)
+  | .isubC c => do pure (← addTerm sq p [] (-c), none)
+  | .iaddD q => do pure (← Qv.iaddD sq p q, none)
+  | .isubD q => do pure (← Qv.isubD sq p q, none)
+  | .imulC c => do pure (← Qv.imulC sq p c, none)
+  | .idivC c => do pure (← Qv.idivC sq p c, none)
+  | .update q => do pure (← updateD sq p q, none)
+  | .delIdx i => pure (if p.isEmpty then p else p.eraseIdx (i % p.length), none)
+  | .rebuild => do pure (← construct sq p, none)
+  | .clear => pure ([], none)
+  | .query spin => pure (p, some (pairJson (if spin then pusoExtrema p else puboExtrema p)))
+  | .bounds lo hi => pure (p, some (pairJson (getBounds p (lo, hi))))
+  | .temp ps pe spin =>
+    -- the object as it is now: an object of the same type holding exactly the current terms
+    match tempRange (.obj κ p []) ps pe spin with
+    | .error e => pure (p, some (errJson e))
+    | .ok (t0, tf) => pure (p, some (Json.mkObj [("T0", tempJson t0), ("Tf", tempJson tf)]))
+
+/-- op "extrema_hist": `M = cls(p)` then the steps in order; output: the answers of the query steps in order and the
+final terms.  A step that raises ends the history (`err`). -/
+def handleExtremaHist (j : Json) : Except String Json := do
+  let κ ← j.getObjVal? "kind" >>= kindOfJson
+  let d ← j.getObjVal? "p" >>= polyOfJson
+  let steps ← (← j.getObjVal? "steps" >>= Json.getArr?).toList.mapM hstepOfJson
+  let sq := squash κ
+  match construct sq d with
+  | .error e => pure (Json.mkObj [("build_err", Json.str e.name)])
+  | .ok p0 =>
+    let rec go (p : Poly) (acc : Array Json) : List HStep → Json
+      | [] => Json.mkObj [("q", Json.arr acc), ("terms", canonJson p)]
+      | s :: r =>
+        match hstep κ sq p s with
+        | .error e => Json.mkObj [("q", Json.arr acc), ("err", Json.str e.name)]
+        | .ok (p', none) => go p' acc r
+        | .ok (p', some a) => go p' (acc.push a) r
+    pure (go p0 #[] steps)
+
 def handlersC15 : List (String × (Json → Except String Json)) :=
-  [("extrema", handleExtrema), ("temprange", handleTempRange), ("getbounds", handleGetBounds)]
+  [("extrema", handleExtrema), ("temprange", handleTempRange), ("getbounds", handleGetBounds),
+   ("extrema_hist", handleExtremaHist)]
 
 end Qv.Drv.C15
